@@ -805,7 +805,11 @@ void llbuild::basic::spawnProcess(
 
   // Export a task ID to subprocesses.
   auto taskID = Twine::utohexstr(handle.id);
-  environment.setIfMissing("LLBUILD_TASK_ID", taskID.str());
+  //
+  // NOTE: This must take precedence over any requested or inherited definition
+  // (e.g., when running below another llbuild), the control protocol depends
+  // on the subprocess seeing the ID of this very task.
+  environment.set("LLBUILD_TASK_ID", taskID.str());
 
   // Resolve the executable path, if necessary.
   //
@@ -857,7 +861,7 @@ void llbuild::basic::spawnProcess(
 
       if (controlPipeChildEnd.isValid()) {
         long long controlFd = (long long)controlPipeChildEnd.unsafeDescriptor();
-        environment.setIfMissing("LLBUILD_CONTROL_FD", Twine(controlFd).str());
+        environment.set("LLBUILD_CONTROL_FD", Twine(controlFd).str());
       }
 
       int result = 0;
